@@ -13,6 +13,7 @@ EXPL = ("Decides, on every CFG path of hash_stream_common / hash_stream / hash_f
 
 def run(ctx):
     cfgs = ["rel"] if ctx.tier == "quick" else ["rel", "dbg", "unsafe", "unsafe_dbg", "fnv"]
+    ctx.progs(cfgs)  # build all configurations in parallel
     for c in cfgs:
         prog = ctx.prog(c)
         n = [0]
